@@ -247,7 +247,10 @@ def judge(stats: Stats, sub, expr, doc_bytes, opts, tag, real=False):
 
 DOC = {"a": [1, 2, {"b": "x"}], "b": {"c": [True, None]}, "e": "é", "1": [0], "s": "abc", "e f": 5, "caf\u00e9": [1], "p%q": 7, "p%25q": 8, "\\u0062": 9}
 QUERIES_OK = ["$", "$.a", "$.a[*]", "$..b", "$.a[?@ > 1]", "$.a[?@.b == 'x']", "$.b.c[1:]", "$['e']", "$.zz", "$..*", "$[?length(@) > 1]", "$.a[-1]",
-              "$['\\u00e9']", "a", "$.a | $.s", "$[?match(@, 'a.c')]", "$['\\u0061']", "$[?@ == '\\u0061bc']", "$['\\\\u0062']"]
+              "$['\\u00e9']", "a", "$.a | $.s", "$[?match(@, 'a.c')]", "$['\\u0061']", "$[?@ == '\\u0061bc']", "$['\\\\u0062']",
+              # queries that span several lines (a line break is blank space wherever blank space is allowed); from a file too
+              "$.a[?@.b == 'x'\nor @ == 1]", "$.a[?@ == 1\nand @ == 1]", "$.a[?@\nin [1, 2]]", "$\n.a", "$.a[\n1\n]", "$.a[?@.b\r\nor\r\n@ == 2]",
+              "$.a[?\nnot\n@.b]", "$.a\n|\n$.s", "$.a[?@.b\n==\n'x']", "$.a[1,\n2]"]
 QUERIES_BAD = ["$[", "$.a[?", "$[?@.a ==]", "$.a[?length(@.*) > 1]", "$[?count(1) > 1]", "$[?foo(@)]", "$[?nosuch(@.a) == 1]", "$[9007199254740992]", "$[01]", "$['a',]",
                "$[?@.a == 'x", "$..", "$[?@ =~ /(/]", "$[1e400]", "$[?!length(@)]", "$[?1e400 == @]",
                # rejected inputs that carry line breaks of their own: the message must still be one line
@@ -360,6 +363,23 @@ def t_encodings():
                         judge(stats, "patch", json.dumps(patch), nonfinite, o, "nf")
                         n += 1
         stats.nt("nonfinite", "doc")
+        # strings that hold unpaired surrogates (legal in JSON text as \\uD800 escapes): whatever the library returns must be written
+        lone = b'{"s": "x\\ud800y", "t": ["\\udc00", "ok"], "pair": "\\ud83d\\ude00", "o": {"k\\udfff": 1}, "ok": 1}'
+        for out_file in (False, True):
+            for pretty in (False, True):
+                for doc_file in (False, True):
+                    o = dict(base, doc_file=doc_file, out_file=out_file, pretty=pretty)
+                    for q in ("$.s", "$.*", "$.t[0]", "$.pair", "$.o", "$..*", "$.ok", "$[?@ == 'x\\ud800y']"):
+                        judge(stats, "path", q, lone, o, "ls")
+                        n += 1
+                    for ptr in ("/s", "/t/0", "/t", "", "/pair", "/o", "/ok"):
+                        judge(stats, "pointer", ptr, lone, o, "ls")
+                        n += 1
+                    for patch in ([{"op": "add", "path": "/x", "value": 1}], [{"op": "copy", "from": "/s", "path": "/y"}], [{"op": "remove", "path": "/ok"}],
+                                  [{"op": "add", "path": "/z", "value": "\ud800"}]):
+                        judge(stats, "patch", json.dumps(patch), lone, o, "ls")
+                        n += 1
+        stats.nt("lone-surrogate", "doc")
     finally:
         shutil.rmtree(scratch_dir(), ignore_errors=True)
     stats.subspaces.append({"name": "6 byte encodings of document and patch file x sub-commands x output options; documents with non-finite numbers x 16 expressions x output/document options",
